@@ -6,8 +6,10 @@ CONSTANTS
   ColumnMemo = "none"
   ParserScope = "per call"
   ScanMemo = "none"
+  OperandScope = "per call"
+  SubqueryColumns = "per table object"
   JobSet = "3rows"
 SPECIFICATION FairSpec
-INVARIANTS TypeOK SerialInv OwnParameters OwnRow OwnStatement
+INVARIANTS TypeOK SerialInv OwnParameters OwnRow OwnStatement OwnOperands OwnNames
 PROPERTIES NonInterference NoSharedState JobConstant Termination
 CHECK_DEADLOCK FALSE
